@@ -265,6 +265,41 @@ SEval(node, env, st) ==
          IF r.sig # "ok" THEN r
          ELSE IF r.v[2].t # "b" THEN SFail(r.st, "type")
          ELSE SR([r.st EXCEPT !.ls = SDel(@, <<r.v[1], r.v[2].v>>), !.writes = Append(@, <<"ldel", r.v[1], r.v[2].v>>)], None)
+    \* ---- boxes (documented meaning of App.box_*): a box is a byte string of fixed length named by a byte string ----
+    [] k = "BoxCreate" ->    \* 1 when created (zero filled), 0 when a box of that name and size exists; another size fails
+         LET r == SEvalList(a, 1, env, st, <<>>) IN
+         IF r.sig # "ok" THEN r
+         ELSE IF r.v[1].t # "b" \/ r.v[2].t # "u" THEN SFail(r.st, "type")
+         ELSE IF IntOf(r.v[2]) < 0 THEN SFail(r.st, "range")
+         ELSE IF r.v[1].v \in DOMAIN r.st.bx
+              THEN (IF Len(r.st.bx[r.v[1].v]) # IntOf(r.v[2]) THEN SFail(r.st, "box") ELSE SR(r.st, U0))
+              ELSE SR([r.st EXCEPT !.bx = SPut(@, r.v[1].v, [j \in 1..IntOf(r.v[2]) |-> 0]),
+                                   !.writes = Append(@, <<"bcreate", r.v[1].v, r.v[2]>>)], U1)
+    [] k = "BoxPut" ->       \* replaces the whole contents; an existing box keeps its length
+         LET r == SEvalList(a, 1, env, st, <<>>) IN
+         IF r.sig # "ok" THEN r
+         ELSE IF r.v[1].t # "b" \/ r.v[2].t # "b" THEN SFail(r.st, "type")
+         ELSE IF r.v[1].v \in DOMAIN r.st.bx /\ Len(r.st.bx[r.v[1].v]) # Len(r.v[2].v) THEN SFail(r.st, "box")
+         ELSE SR([r.st EXCEPT !.bx = SPut(@, r.v[1].v, r.v[2].v), !.writes = Append(@, <<"bput", r.v[1].v, r.v[2].v>>)], None)
+    [] k = "BoxDel" ->       \* 1 when the box existed
+         LET r == SEval(a[1], env, st) IN
+         IF r.sig # "ok" THEN r ELSE IF r.v.t # "b" THEN SFail(r.st, "type")
+         ELSE SR([r.st EXCEPT !.bx = SDel(@, r.v.v), !.writes = Append(@, <<"bdel", r.v.v>>)], Bool(r.v.v \in DOMAIN r.st.bx))
+    [] k = "BoxExtract" ->   \* length bytes from start of an existing box
+         LET r == SEvalList(a, 1, env, st, <<>>) IN
+         IF r.sig # "ok" THEN r
+         ELSE IF r.v[1].t # "b" \/ r.v[2].t # "u" \/ r.v[3].t # "u" THEN SFail(r.st, "type")
+         ELSE IF r.v[1].v \notin DOMAIN r.st.bx THEN SFail(r.st, "box")
+         ELSE Lift(r.st, PureOp("extract3", <<>>, <<B(r.st.bx[r.v[1].v]), r.v[2], r.v[3]>>))
+    [] k = "BoxReplace" ->   \* overwrites part of an existing box, which keeps its length
+         LET r == SEvalList(a, 1, env, st, <<>>) IN
+         IF r.sig # "ok" THEN r
+         ELSE IF r.v[1].t # "b" \/ r.v[2].t # "u" \/ r.v[3].t # "b" THEN SFail(r.st, "type")
+         ELSE IF r.v[1].v \notin DOMAIN r.st.bx THEN SFail(r.st, "box")
+         ELSE LET q == PureOp("replace3", <<>>, <<B(r.st.bx[r.v[1].v]), r.v[2], r.v[3]>>) IN
+              IF ~q.ok THEN SFail(r.st, q.why)
+              ELSE SR([r.st EXCEPT !.bx = SPut(@, r.v[1].v, q.v[1].v),
+                                   !.writes = Append(@, <<"breplace", r.v[1].v, r.v[2], r.v[3].v>>)], None)
     [] k = "MV" ->       \* a MaybeValue evaluated once; node.i[1] names it, node.s says which lookup
          LET r == SEvalList(a, 1, env, st, <<>>) IN
          IF r.sig # "ok" THEN r
@@ -272,6 +307,12 @@ SEval(node, env, st) ==
                 CASE node.s = "GGetEx" ->
                        IF r.v[1].t # "u" \/ r.v[2].t # "b" THEN Fail("type")
                        ELSE Ok(<<SGet(r.st.gs, r.v[2].v, U0), Bool(r.v[2].v \in DOMAIN r.st.gs)>>)
+                  [] node.s = "BoxGet" ->
+                       IF r.v[1].t # "b" THEN Fail("type")
+                       ELSE Ok(<<B(SGet(r.st.bx, r.v[1].v, <<>>)), Bool(r.v[1].v \in DOMAIN r.st.bx)>>)
+                  [] node.s = "BoxLen" ->
+                       IF r.v[1].t # "b" THEN Fail("type")
+                       ELSE Ok(<<U(FromInt(Len(SGet(r.st.bx, r.v[1].v, <<>>)))), Bool(r.v[1].v \in DOMAIN r.st.bx)>>)
                   [] OTHER -> LedgerGet(env.ctx, node.s, r.v)
               IN IF ~res.ok THEN SFail(r.st, res.why)
                  ELSE SR([r.st EXCEPT !.mv = SPut(@, <<node.i[1], env.act>>, res.v)], None)
